@@ -452,6 +452,8 @@ def vmpi_legs(ctx, exe_v, exe_r):
             cf.result()
         os.unlink(sf)
         for l in ctx.legs:
+            if l.get('leg') == 'vmpi' and l.get('max_completed_requests_in_one_testsome', 0) > 4:
+                ctx.notes.append('%s: an MPI_Testsome call found %d completed requests; beyond 4 only the subsets all / any single one / all but one (/ none) are explored' % (l.get('name'), l['max_completed_requests_in_one_testsome']))
             if l.get('leg') == 'vmpi' and not l.get('exhaustive') and not l.get('violations'):
                 ctx.notes.append('%s: %s of %s scenarios were cut by the deadline (their search did not close / did not finish the bound)' % (l.get('name'), l.get('scenarios_cut_by_deadline'), l.get('scenarios')))
     except Exception as e:       # a problem of the check itself
